@@ -120,6 +120,11 @@ func (g *Gen) declareFun(name, sig string) {
 	if _, ok := g.U.oracleFuns[name]; ok {
 		return
 	}
+	if name == "timeUnix" {
+		if _, ok := g.U.structs["S_Time"]; ok {
+			return
+		}
+	}
 	if strings.HasPrefix(name, "dynres_") && len(name) > 9 && name[7] >= '0' && name[7] <= '2' {
 		switch name[9:] {
 		case "Val", "Err", "Int", "Bool", "Slice", "Real":
